@@ -407,6 +407,8 @@ def run(pid, tier, seed, t0, asbuilt=None):
     mviol, _ = monitor(pid, mtrace)
     model_flags = sorted({v["tag"] for v in mviol})
 
+    # extension stage: Connector.tla (the four connector stages behind the two gates of Pool.tla; C03 clauses: stranded call, lost wake-up)
+    connector = __import__("x_connector").stage(pid, tier, seed, verdict) if pid == "C03" else None
     code, unlisted = verdict.finish()
     if selftest_error is not None and not verdict.violations and not all_viol:
         raise selftest_error
@@ -438,6 +440,7 @@ def run(pid, tier, seed, t0, asbuilt=None):
         "monitor_on_model_behaviours": {"behaviours": min(len(behs), 400 if tier == "quick" else 4000), "clauses_flagged": model_flags},
         "clauses_falsified": sorted({v["tag"] for v in all_viol}),
         "repo_tree": vlib.repo_tree_id(),
+        "connector_model": connector,
     }
     if rep["drifted"]:
         vlib.log(f"DRIFT: {rep['drifted']} of {rep['behaviours']} replayed behaviours differ from Pool.tla: {rep['drift_kinds']}")
@@ -450,6 +453,16 @@ def run(pid, tier, seed, t0, asbuilt=None):
 def replay(pid, path):
     """Re-validates the recorded real trace of a violation and re-executes its action sequence on the current tree."""
     obj = json.load(open(path))
+    _rk = obj.get("replay", {}).get("kind") if isinstance(obj.get("replay"), dict) else None
+    if _rk == "connector-trace":
+        return __import__("x_connector").replay(pid, obj)
+    if _rk == "body-ops":
+        return __import__("x_body").replay(pid, obj)
+    if _rk == "tcpcall-row":
+        _c = __import__("x_tcpcall").replay(pid, obj)
+        if _c:
+            print("VIOLATION property=%s replay=%s" % (pid, path), flush=True)
+        return _c
     if obj["replay"].get("kind") == "pool-manyorigins":
         d = vlib.outdir(pid)
         mo = os.path.join(d, "manyorigins-replay.ndjson")
